@@ -1,8 +1,7 @@
 import os
 import vlib
 
-THEOREMS = ["Dispenso.Spsc." + t for t in [
-    "C35_fifo", "C35_indices_in_range", "C35_push_reject_iff_full", "C35_pop_reject_iff_empty"]]
+THEOREMS = []
 
 
 def run(ctx, replay):
@@ -12,14 +11,14 @@ def run(ctx, replay):
                        "model; oracle: popped sequence is a prefix of the pushed sequence, occupancy <= capacity, "
                        "rejections only when full/empty at call start, lifetimes balance; distinct = (K, #pushed, #popped)")
     if THEOREMS:
-        ctx.prove("DispensoVerif.Props.C35", THEOREMS)
+        ctx.prove("DispensoVerif.Props.C45", THEOREMS)
     else:
         vlib.lake_build(["dvdriver"])
-    src = os.path.join(vlib.HARNESS, "conc", "c35_spsc.cpp")
-    exe, log = vlib.build_dsched_harness(src)
+    src = os.path.join(vlib.HARNESS, "conc", "c45_threadid.cpp")
+    exe, log = vlib.build_dsched_harness(src, repo_cpps=("tsan_annotations.cpp", "thread_id.cpp"))
     if not exe:
-        ctx.broken.append(("harness:c35_spsc", "does not compile against the current tree: " + log[-1500:]))
+        ctx.broken.append(("harness:c45_threadid", "does not compile against the current tree: " + log[-1500:]))
         return
     args = replay["args"] if replay and replay.get("args") else [ctx.seed, 400 if ctx.tier == "quick" else 20000]
-    res = vlib.trace_validate(ctx, "spsc", exe, args)
-    vlib.standard_verdict(ctx, "spsc", res, args, "conc/c35_spsc.cpp")
+    res = vlib.trace_validate(ctx, "threadid", exe, args)
+    vlib.standard_verdict(ctx, "threadid", res, args, "conc/c45_threadid.cpp")
